@@ -99,14 +99,25 @@ func (s *c08Seq) Enabled() []int {
 	return en
 }
 
-func c08VV(p []byte, split int) buffer.VectorisedView {
+// c08Link hands fragments to the reassembler the way the repository's fd-based link endpoint
+// does: the payload bytes are fresh for every packet, but the array of view headers is the
+// endpoint's own and is refilled for the next packet, so whoever keeps the VectorisedView it
+// was given (instead of a clone) sees the views of later packets.
+type c08Link struct{ views [2]buffer.View }
+
+var c08DefaultLink c08Link
+
+func (l *c08Link) vv(p []byte, split int) buffer.VectorisedView {
 	if split <= 0 || split >= len(p) {
-		return buffer.View(append([]byte(nil), p...)).ToVectorisedView()
+		l.views[0], l.views[1] = buffer.View(append([]byte(nil), p...)), nil
+		return buffer.NewVectorisedView(len(p), l.views[:1])
 	}
-	a := buffer.View(append([]byte(nil), p[:split]...))
-	b := buffer.View(append([]byte(nil), p[split:]...))
-	return buffer.NewVectorisedView(len(p), []buffer.View{a, b})
+	l.views[0] = buffer.View(append([]byte(nil), p[:split]...))
+	l.views[1] = buffer.View(append([]byte(nil), p[split:]...))
+	return buffer.NewVectorisedView(len(p), l.views[:2])
 }
+
+func c08VV(p []byte, split int) buffer.VectorisedView { return c08DefaultLink.vv(p, split) }
 
 func (s *c08Seq) Apply(i int) *engine.Violation {
 	o := s.ops[i]
@@ -226,12 +237,13 @@ func c08Harness(p c08Prog) engine.Harness {
 			for ti, script := range p.threads {
 				ti, script := ti+1, script
 				ts = append(ts, vsched.Go(func() {
+					var link c08Link // one link endpoint (dispatch goroutine) per thread
 					for _, tok := range strings.Fields(script) {
 						var id, a, b int
 						fmt.Sscanf(tok, "%d:%d-%d", &id, &a, &b)
 						content := c08Content(id, 0, total)
 						vsched.Point()
-						res, done := f.Process(uint32(id), uint16(a*8), uint16(b*8-1), b < p.n, c08VV(content[a*8:b*8], 3))
+						res, done := f.Process(uint32(id), uint16(a*8), uint16(b*8-1), b < p.n, link.vv(content[a*8:b*8], 3))
 						recs = append(recs, rec{ti, id, done, append([]byte(nil), res.ToView()...), res.Size()})
 					}
 				}))
